@@ -90,8 +90,39 @@ def _effects(fn: ast.FunctionDef):
     return out
 
 
+def _flush_flags(ex) -> set:
+    """attributes of the executor that only say whether overrides are pending: every store assigns a Boolean constant and every
+    read is the test of a branch"""
+    stores, reads, in_tests = {}, {}, {}
+    for m in ex.methods.values():
+        tests = set()
+        for n in ast.walk(m.node):
+            if isinstance(n, (ast.If, ast.IfExp, ast.While)):
+                tests.update(id(x) for x in ast.walk(n.test))
+        for n in ast.walk(m.node):
+            if isinstance(n, ast.Attribute) and isinstance(n.value, ast.Name) and n.value.id == 'self':
+                if isinstance(n.ctx, ast.Store):
+                    stores.setdefault(n.attr, []).append(n)
+                else:
+                    reads.setdefault(n.attr, []).append(n)
+                    in_tests.setdefault(n.attr, []).append(id(n) in tests)
+    out = set()
+    for attr, sts in stores.items():
+        consts = True
+        for m in ex.methods.values():
+            for st in ast.walk(m.node):
+                if isinstance(st, (ast.Assign, ast.AnnAssign)) and any(
+                        isinstance(t, ast.Attribute) and t.attr == attr for t in (st.targets if isinstance(st, ast.Assign) else [st.target])):
+                    if not (isinstance(st.value, ast.Constant) and isinstance(st.value.value, bool)):
+                        consts = False
+        if consts and reads.get(attr) and all(in_tests[attr]):
+            out.add(attr)
+    return out
+
+
 def r1(run: Run, src, rt, cg):
     ex = src.cls('Executor')
+    flags = _flush_flags(ex)
     entries = [ex.methods[n] for n in ('get_cell', 'get_cells', 'get_sheet') if n in ex.methods]
     if len(entries) != 3:
         raise AnalysisError('C08.R1', 'Executor.get_cell/get_cells/get_sheet not all found')
@@ -103,8 +134,11 @@ def r1(run: Run, src, rt, cg):
         n += 1
         effs = _effects(f.node)
         bad = [st for st in effs if (f.qualname, st.target) not in ALLOWED_EXECUTOR]
-        if f.qualname == 'Executor._set_cells_to_executed_instance':
-            bad = [st for st in bad if st.target != 'self._cells_have_been_changed']
+        # clearing / raising the pending-overrides flag is bookkeeping of the flush (whether the flush happens when it must is
+        # decided by the evaluated histories, C08.R2)
+        bad = [st for st in bad if not (st.target.startswith('self.') and st.target[5:] in flags)]
+        # the documented API: the result is written into the Cell the caller handed in (or into the Cell of the grid being built)
+        bad = [st for st in bad if not (st.target.endswith('.value') and not st.target.startswith('self.') and st.target.count('.') == 1)]
         for st in bad:
             run.bad('C08.R1', f'{f.qualname}/{st.target}', 'query-writes-state',
                     f'{f.qualname} is on the query path ({" -> ".join(cg.path_to(reach, key)[-3:])}) and writes `{st.target}`: querying '
@@ -138,6 +172,17 @@ def r1(run: Run, src, rt, cg):
 
 
 def r2_r3(run: Run, src):
+    """decided by evaluation of query / override histories on the executor as written; the structural reading is the fallback"""
+    from . import executor_eval
+    try:
+        executor_eval.evaluate_histories(run, lambda h: 'C08.R3' if 'addressing' in h or 'a1' in h or 'apis' in h else 'C08.R2', src)
+        run.extra['executor_by_evaluation'] = True
+    except AnalysisError as e:
+        run.notes.append(f'C08.R2/R3: executor by structure ({e})')
+        _r2_r3_structural(run, src)
+
+
+def _r2_r3_structural(run: Run, src):
     ex = src.cls('Executor')
     fields = cell_field_order(src)
     gcs = ex.methods['get_cells']
@@ -246,6 +291,8 @@ def r4(run: Run, src, rt):
                       fact='self._cell_preprocessor(uid)', loc=cp.loc(efi))
     ex = src.cls('Executor')
     gc = ex.methods['get_cell']
+    if run.extra.get('executor_by_evaluation'):
+        return              # the route of a query is part of the evaluated histories
     run.check('self._executed_instance.exec_function_in(cell.uid)' in ast.unparse(gc.node), 'C08.R4', 'Executor.get_cell/route', 'route',
               'get_cell does not evaluate through exec_function_in(cell.uid)', fact='exec_function_in(cell.uid)',
               loc=loc_of(gc.module.path, gc.node))
@@ -276,6 +323,6 @@ def run(run: Run):
     run.floor('C08.R1', 100)
     run.floor('C08.R2', 4)
     run.floor('C08.R3', 4)
-    run.floor('C08.R4', 5)
+    run.floor('C08.R4', 4)
     run.floor('C08.R5', 2)
     return INFO
